@@ -167,10 +167,29 @@ ZOO_NAMES = ("#[allow(non_camel_case_types, dead_code)]\npub mod zoo_names {\n"
              "    #[derive(Debug, Clone, Copy, PartialEq, Eq, PartialOrd, Ord, Hash, Default)] pub struct String(pub u8);\n"
              "}\n#[allow(non_camel_case_types, dead_code)]\npub mod zoo_prim {\n    #[derive(Debug, Clone, Copy, PartialEq, Eq, PartialOrd, Ord, Hash, Default)] pub struct r#u8(pub bool);\n}\n")
 ZOO_PRE = ZOO_NAMES + "#[allow(dead_code)] type ZooF = f64;\n" + "static ZOO_DATA: [u8; 5] = [1, 2, 3, 4, 5];\nstatic ZOO_STR: &str = \"abcde\";\n" + ("macro_rules! zoo_ty { () => { u8 }; }\npub trait ZooTr { type Out; }\nimpl ZooTr for u8 { type Out = u16; }\n"
+           "#[derive(Debug, Clone, Copy, PartialEq, Eq, PartialOrd, Ord, Hash)]\npub struct ZooIgn;\n"
+           "#[allow(dead_code)] fn zoo_m_eq<T: PartialEq>(a: &T, b: &T) -> bool { a == b }\n"
+           "#[allow(dead_code)] fn zoo_m_pcmp<T: PartialOrd>(a: &T, b: &T) -> Option<core::cmp::Ordering> { a.partial_cmp(b) }\n"
+           "#[allow(dead_code)] fn zoo_m_cmp<T: Ord>(a: &T, b: &T) -> core::cmp::Ordering { a.cmp(b) }\n"
+           "#[allow(dead_code)] fn zoo_m_hash<T: core::hash::Hash, H: core::hash::Hasher>(v: &T, h: &mut H) { v.hash(h) }\n"
+           "#[allow(dead_code)] fn zoo_m_clone<T: Clone>(v: &T) -> T { v.clone() }\n"
+           "#[allow(dead_code)] fn zoo_m_fmt<T: core::fmt::Debug>(v: &T, f: &mut core::fmt::Formatter<'_>) -> core::fmt::Result { v.fmt(f) }\n"
            "fn zoo_inc(x: u8) -> u8 { x.wrapping_add(1) }\nfn zoo_dec(x: u8) -> u8 { x.wrapping_sub(1) }\nfn zoo_id(x: &u8) -> &u8 { x }\nfn zoo_id2(x: &u8) -> &u8 { let _ = 2; x }\n")
 
 
-def zoo_cases(prop, educed, std_for_educe_type, twin_derives, body_check, zoo=None):
+def twin_ctor(c, kind, ign):
+    t = c('tw::')
+    if not ign:
+        return t
+    import re as _re
+    if kind == 'sn':
+        return _re.sub(r', b: [01] \}$', ', b: ZooIgn }', t)
+    if kind == 'st':
+        return _re.sub(r', [01]\)$', ', ZooIgn)', t)
+    return _re.sub(r'^tw::Ty::A\([01], ', 'tw::Ty::A(ZooIgn, ', _re.sub(r', b: [01] \}$', ', b: ZooIgn }', t))
+
+
+def zoo_cases(prop, educed, std_for_educe_type, twin_derives, body_check, zoo=None, z_attr='', ign_attr=''):
     """One case per (type form, shape).  `educed`: educe trait list text; `std_for_educe_type`: std derives on the educe type; `twin_derives`: std derives on the twin;
     body_check: Rust statements using `vs: Vec<(Ty, tw::Ty)>` and `r`."""
     from ..core import Case
@@ -195,11 +214,27 @@ def zoo_cases(prop, educed, std_for_educe_type, twin_derives, body_check, zoo=No
                         ctor.append(lambda p, a=a, z=z: '%sTy::B { z: %s, b: %s }' % (p, z, a))
                 ctor.append(lambda p: '%sTy::C' % p)
             src = ZOO_PRE
-            src += '#[derive(Educe%s)]\n#[educe(%s)]\n%s\n' % (', ' + std_for_educe_type if std_for_educe_type else '', educed, decl)
-            src += 'mod tw {\n    use super::*;\n    #[derive(%s)]\n    %s\n}\n' % (twin_derives, decl)
+            edecl, tdecl = decl, decl
+            if z_attr:
+                # the exotic field carries an attribute itself (a custom method that forwards to the field type's own implementation): the twin stays the plain std derive
+                edecl = edecl.replace('pub z: ', '#[educe(%s)] pub z: ' % z_attr).replace('pub %s, pub u8);' % zty, '#[educe(%s)] pub %s, pub u8);' % (z_attr, zty))
+                edecl = edecl.replace('A(u8, %s)' % zty, 'A(u8, #[educe(%s)] %s)' % (z_attr, zty)).replace('B { z: ', 'B { #[educe(%s)] z: ' % z_attr)
+                assert edecl.count(z_attr) == (2 if kind == 'en' else 1), edecl
+            if ign_attr:
+                # a sibling of the exotic field is ignored: in the twin that sibling is a unit struct (always equal, feeds nothing)
+                if kind == 'sn':
+                    edecl, tdecl = edecl.replace('pub b: u8', '#[educe(%s)] pub b: u8' % ign_attr), tdecl.replace('pub b: u8', 'pub b: ZooIgn')
+                elif kind == 'st':
+                    edecl, tdecl = edecl.replace(', pub u8);', ', #[educe(%s)] pub u8);' % ign_attr), tdecl.replace(', pub u8);', ', pub ZooIgn);')
+                else:
+                    edecl = edecl.replace('A(u8, ', 'A(#[educe(%s)] u8, ' % ign_attr).replace(', b: u8 }', ', #[educe(%s)] b: u8 }' % ign_attr)
+                    tdecl = tdecl.replace('A(u8, ', 'A(ZooIgn, ').replace(', b: u8 }', ', b: ZooIgn }')
+                assert edecl.count(ign_attr) == (2 if kind == 'en' else 1), edecl
+            src += '#[derive(Educe%s)]\n#[educe(%s)]\n%s\n' % (', ' + std_for_educe_type if std_for_educe_type else '', educed, edecl)
+            src += 'mod tw {\n    use super::*;\n    #[derive(%s)]\n    %s\n}\n' % (twin_derives, tdecl)
             src += 'pub fn check(r: &mut Rep) {\n    let vs: Vec<(Ty, tw::Ty)> = vec![\n%s    ];\n%s}\n' % (
-                ''.join('        (%s, %s),\n' % (c(''), c('tw::')) for c in ctor), body_check)
-            out.append(Case('%s|zoo|%s|%s' % (prop, zid, kind), src, {'field_type': zty, 'shape': kind, 'oracle': '#[derive(%s)] on a twin' % twin_derives},
+                ''.join('        (%s, %s),\n' % (c(''), twin_ctor(c, kind, bool(ign_attr))) for c in ctor), body_check)
+            out.append(Case('%s|zoo|%s|%s' % (prop, zid, kind), src, {'field_type': zty, 'shape': kind, 'oracle': '#[derive(%s)] on a twin' % twin_derives, 'attribute on the field': z_attr, 'attribute on its sibling': ign_attr},
                             expect='accept', run=True, depth=1))
     return out
 
